@@ -169,8 +169,15 @@ def kill_run(policy, order):
           s.emit('handler-exc', type(e).__name__)
           raise
     t = KT(name='T')
-    t._running_lock.label = 'running'
-    s.emit('killed-event', id(t._killed))
+    # the thread's own lock and flag, found by type (their attribute names are private)
+    own = {k: v for k, v in vars(t).items() if k not in vars(threading.Thread(target=None))}
+    locks = [v for v in own.values() if isinstance(v, sched.CoopLock)]
+    flags = [v for v in own.values() if isinstance(v, sched.CoopEvent)]
+    if len(locks) != 1 or len(flags) != 1:
+      raise RuntimeError('harness: KillableThread is expected to own exactly one lock and one event (found %d, %d)'
+                         % (len(locks), len(flags)))
+    locks[0].label = 'running'
+    s.emit('killed-event', id(flags[0]))
 
     def starter():
       s.emit('start-call')
